@@ -17,11 +17,13 @@ pub struct Rt {
     pub gated: Arc<AtomicBool>,
     pub log: Arc<Mutex<Vec<Ev>>>,
     pub logging: Arc<AtomicBool>,
+    /// when set, only resolvers whose response path is in the set wait on a gate
+    pub only: Arc<Mutex<Option<std::collections::HashSet<String>>>>,
 }
 
 impl Rt {
     pub fn new(world: World) -> Rt {
-        Rt { world: Arc::new(world), gates: Gates::new(), gated: Arc::new(AtomicBool::new(false)), log: Arc::new(Mutex::new(vec![])), logging: Arc::new(AtomicBool::new(true)) }
+        Rt { world: Arc::new(world), gates: Gates::new(), gated: Arc::new(AtomicBool::new(false)), log: Arc::new(Mutex::new(vec![])), logging: Arc::new(AtomicBool::new(true)), only: Arc::new(Mutex::new(None)) }
     }
     pub fn set_gated(&self, g: bool) {
         self.gated.store(g, Ordering::SeqCst);
@@ -39,12 +41,20 @@ impl Rt {
             self.log.lock().unwrap().push(Ev::Finish { path: path.to_string(), node, field: field.to_string() });
         }
     }
+    pub fn gate_only(&self, paths: impl IntoIterator<Item = String>) {
+        *self.only.lock().unwrap() = Some(paths.into_iter().collect());
+    }
     pub fn take_log(&self) -> Vec<Ev> {
         std::mem::take(&mut *self.log.lock().unwrap())
     }
     /// wait on the gate named after the response path (passes straight through when not gated)
     pub async fn gate(&self, label: String) {
-        let pass = !self.is_gated();
+        let mut pass = !self.is_gated();
+        if !pass {
+            if let Some(set) = &*self.only.lock().unwrap() {
+                pass = !set.contains(&label);
+            }
+        }
         self.gates.wait_or_pass(label, pass).await
     }
 }
